@@ -231,6 +231,9 @@ func (p *Program) Funcs(pk *packages.Package) []*FuncDecl {
 	return out
 }
 
+// RawFuncs is Funcs without inlining.
+func (p *Program) RawFuncs(pk *packages.Package) []*FuncDecl { return p.rawFuncs(pk) }
+
 func (p *Program) rawFuncs(pk *packages.Package) []*FuncDecl {
 	var out []*FuncDecl
 	for _, f := range pk.Syntax {
@@ -283,6 +286,14 @@ func (p *Program) RawFunc(rel, recv, name string) *FuncDecl {
 		p.anchors[fd.Obj] = true
 	}
 	return fd
+}
+
+// Anchor marks a function as analysed as a unit (never inlined into callers).
+func (p *Program) Anchor(fn *types.Func) {
+	if p.anchors == nil {
+		p.anchors = map[*types.Func]bool{}
+	}
+	p.anchors[fn] = true
 }
 
 func (p *Program) rawFunc(rel, recv, name string) *FuncDecl {
